@@ -55,6 +55,7 @@ class Scope(BaseScope):
         self.top = top
         self.locals = set()   # type: set[str]
         self.globals = set()  # type: set[str]
+        self.nonlocals = set()  # type: set[str]
 
     @property
     def filename(self):
@@ -80,7 +81,10 @@ class Flow(object):
         if name.name in self.scope.globals:
             self.scope.top.add_global(name)
         else:
-            self.scope.locals.add(name.name)
+            if name.name in self.scope.nonlocals:
+                self.scope.top.add_nonlocal(name)
+            else:
+                self.scope.locals.add(name.name)
             insert_loc(self._names, name)
 
     @property
@@ -214,6 +218,7 @@ class SourceScope(Scope):
         self._star_imports = []
         self._attr_assigns = []
         self._global_names = {}
+        self._nonlocal_names = []
         self._loop_memo = [{}]
         self._loop_deps = [set()]
 
@@ -275,6 +280,24 @@ class SourceScope(Scope):
     def add_global(self, name):
         # type: (Name) -> None
         self._global_names[name.name] = name
+
+    def add_nonlocal(self, name):
+        # type: (Name) -> None
+        self._nonlocal_names.append(name)
+
+    def resolve_nonlocals(self):
+        # type: () -> None
+        """A name bound under a nonlocal declaration belongs to the
+        nearest enclosing function which has it as a local"""
+        for name in self._nonlocal_names:
+            scope = name.scope.parent
+            while isinstance(scope, Scope) and scope is not self:
+                if isinstance(scope, FuncScope) and name.name in scope.locals:
+                    name.scope = scope
+                    break
+                scope = scope.parent
+
+        self._nonlocal_names[:] = []
 
     def add_flow(self, flow):
         # type: (Flow) -> Flow
